@@ -153,6 +153,45 @@ pub fn run_case(kind: &str, t: &mut Toks) -> String {
             )
         }
         "tess" => crate::tess::run(t),
+        "nn" => {
+            // nn <dim> <periodic> <width:3> <n> <gens:3n> <nq> <queries>  (width = the normalised width)
+            let dim = t.dim();
+            let periodic = t.bool();
+            let width = t.v3();
+            let n = t.usize();
+            let gens: Vec<DVec3> = (0..n).map(|_| t.v3()).collect();
+            let nq = t.usize();
+            let qs: Vec<usize> = (0..nq).map(|_| t.usize()).collect();
+            fn dump(d: &hooks::TreeDump) -> String {
+                match d {
+                    hooks::TreeDump::Leaf { id, loc } => format!("[{},{},{},{}]", id, json::f(loc[0]), json::f(loc[1]), json::f(loc[2])),
+                    hooks::TreeDump::Node { lower, upper, children } => format!(
+                        "{{\"lo\":[{},{},{}],\"hi\":[{},{},{}],\"c\":[{}]}}",
+                        json::f(lower[0]), json::f(lower[1]), json::f(lower[2]),
+                        json::f(upper[0]), json::f(upper[1]), json::f(upper[2]),
+                        children.iter().map(dump).collect::<Vec<_>>().join(",")
+                    ),
+                }
+            }
+            let tree = hooks::rtree_dump(&gens, dim);
+            let visits: Vec<String> = qs
+                .iter()
+                .map(|&q| {
+                    let v = hooks::nn_visits(&gens, q, width, dim, periodic);
+                    format!(
+                        "[{}]",
+                        v.iter()
+                            .map(|(id, sh)| match sh {
+                                None => format!("[{}]", id),
+                                Some(s) => format!("[{},{},{},{}]", id, json::f(s.x), json::f(s.y), json::f(s.z)),
+                            })
+                            .collect::<Vec<_>>()
+                            .join(",")
+                    )
+                })
+                .collect();
+            format!("\"tree\":[{}],\"visits\":[{}]", tree.iter().map(dump).collect::<Vec<_>>().join(","), visits.join(","))
+        }
         _ => panic!("unknown case kind {kind}"),
     }
 }
